@@ -1208,6 +1208,20 @@ def _m_hash(I, b, a, kw, node):
     return SymV(I.ctx.fresh("hash", z3.IntSort()), "int")
 
 
+@ext("builtins.id")
+def _m_id(I, b, a, kw, node):
+    """identity of a heap object: a distinct integer per live object (ASSUMED: CPython's id() of two simultaneously
+    live objects differs; equal for the same object).  Only mutable containers / instances have a modelled identity."""
+    v = a[0]
+    if isinstance(v, (PyList, PyDict, PySet, Obj, NpCell, SDict)):
+        tbl = I.ext_state.setdefault("object_ids", {})
+        key = id(v)
+        if key not in tbl:
+            tbl[key] = (7_000_000 + 16 * len(tbl), v)      # keep the object alive so the key stays unique
+        return tbl[key][0]
+    raise EngineLimit(f"id() of {type(v).__name__}")
+
+
 @ext("builtins.divmod")
 def _m_divmod(I, b, a, kw, node):
     q = binop(I, ast.FloorDiv(), a[0], a[1], node)
